@@ -295,7 +295,7 @@ def des_instrs(types, instrs, mr, tree, st, env, in_chunk):
             items = []
             if ins[3] is not None:
                 n = ins[3][1] if ins[3][0] == "const" else env[ins[3][1]]
-                n = fork(n)
+                n = fork(n) if fork(n > 0) else 0       # a non-positive count reads nothing
                 for i in range(n):
                     items.append(get_value(types, mr, ins[2], None, False, env))
                     if ins[5] and (ins[6] or i + 1 < n):
